@@ -32,3 +32,19 @@ def run(ctx, oracles=('frame', 'fresh', 'reads'), prefix=''):
                         sig, what = fails[0]
                         ctx.oracle_fail(prefix + sig, what + f' [view probe {raw} {[o["kind"] for o in ops]}]',
                                         {'text': text, 'auto_claim': auto, 'ops': ops, 'oracles': list(oracles)})
+    # same-named elements in sibling string views (`#trip` next to `^trip`): remove / discard through one view leaves the other's
+    for text, path in (('2000-01-01 * "x" #trip ^trip #food ^trip #trip\n  Assets:A  1 USD\n', ['raw_directives_with_comments', 0]),
+                       ('2000-01-01 note Assets:A "n" ^trip #trip ^trip\n', ['raw_directives_with_comments', 0])):
+        for view in ('tags', 'links'):
+            for meth in ('remove', 'discard'):
+                for val in ('trip', 'food', 'absent'):
+                    op = {'k': 'call', 'kind': 'view-' + meth, 'm': meth, 'args': [{'t': 'lit', 'v': val}], 'path': path, 'attr': view, 'parent': path, 'field': view}
+                    try:
+                        fails, outcomes = session.run_history(text, True, [op], list(oracles))
+                    except Exception as e:
+                        fails, outcomes = [(f'view-probe-raises:{type(e).__name__}', repr(e)[:200])], []
+                    ctx.case(('view-probe-namesake', view, meth, val))
+                    if fails:
+                        sig, what = fails[0]
+                        ctx.oracle_fail(prefix + sig, what + f' [namesake probe {view}.{meth}({val!r})]',
+                                        {'text': text, 'auto_claim': True, 'ops': [op], 'oracles': list(oracles)})
